@@ -12,8 +12,9 @@ Local Open Scope Z_scope.
    (transaction execution, signer resolution, penalty, period end, hashes):
 
    determinism  processing a block on a parent state gives one result whatever
-                the iteration order of every map on the path, whatever the
-                cache contents, and wherever the local chain head is;
+                the iteration order of every map on the path and whatever the
+                cache contents (the position of the local chain head is not an
+                input of process_block at all since fix ec9154c);
    agreement    every block the builder assembles from any candidate
                 transactions and any evidence pool is accepted unchanged (same
                 state, same receipts) by a node that processes it. *)
@@ -21,12 +22,12 @@ Local Open Scope Z_scope.
 Definition C06_determinism_full : Prop :=
   forall (St tx lg : Type) exec price resolve val_exists penalize max_expired view apply_rewards
          v5 threshold coeff ratios freq period_end commit receipt_hash bloom,
-  forall sc sc' m m' head head' st h,
+  forall sc sc' m m' st h,
     sched_valid sc -> sched_valid sc' -> memo_valid resolve m -> memo_valid resolve m' ->
     process_block St tx lg exec price resolve val_exists penalize max_expired view apply_rewards
-                  v5 threshold coeff ratios freq period_end commit receipt_hash bloom sc m head st h =
+                  v5 threshold coeff ratios freq period_end commit receipt_hash bloom sc m st h =
     process_block St tx lg exec price resolve val_exists penalize max_expired view apply_rewards
-                  v5 threshold coeff ratios freq period_end commit receipt_hash bloom sc' m' head' st h.
+                  v5 threshold coeff ratios freq period_end commit receipt_hash bloom sc' m' st h.
 
 Definition C06_agreement_full : Prop :=
   forall (St tx lg : Type) exec price resolve val_exists penalize max_expired view apply_rewards
@@ -38,7 +39,7 @@ Definition C06_agreement_full : Prop :=
                 sc m st0 number coinbase cands pool = Done b ->
     process_block St tx lg exec price resolve val_exists penalize max_expired view apply_rewards
                   v5 threshold coeff ratios freq period_end commit receipt_hash bloom
-                  sc' m' (number - 1)%N st0 (b_header _ _ _ b)
+                  sc' m' st0 (b_header _ _ _ b)
     = Accepted _ _ (b_state _ _ _ b) (b_receipts _ _ _ b).
 
 Definition C06_full : Prop := C06_determinism_full /\ C06_agreement_full.
@@ -82,20 +83,11 @@ Theorem C06_cache_free :
 Proof. exact process_evidences_cache_free. Qed.
 Print Assumptions C06_cache_free.
 
-(* 4. determinism, outside the open finding "replaySlashing reads the chain
-      head": for a fixed position of the local head the result of processing a
-      block is independent of iteration orders and cache contents *)
-Theorem C06_deterministic_holds_outside :
-  forall (St tx lg : Type) exec price resolve val_exists penalize max_expired view apply_rewards
-         v5 threshold coeff ratios freq period_end commit receipt_hash bloom,
-  forall sc sc' m m' head st h,
-    sched_valid sc -> sched_valid sc' -> memo_valid resolve m -> memo_valid resolve m' ->
-    process_block St tx lg exec price resolve val_exists penalize max_expired view apply_rewards
-                  v5 threshold coeff ratios freq period_end commit receipt_hash bloom sc m head st h =
-    process_block St tx lg exec price resolve val_exists penalize max_expired view apply_rewards
-                  v5 threshold coeff ratios freq period_end commit receipt_hash bloom sc' m' head st h.
+(* 4. determinism: the result of processing a block is independent of iteration
+      orders and cache contents *)
+Theorem C06_deterministic : C06_determinism_full.
 Proof. exact process_block_deterministic. Qed.
-Print Assumptions C06_deterministic_holds_outside.
+Print Assumptions C06_deterministic.
 
 (* 4a. the builder is deterministic as well *)
 Theorem C06_builder_deterministic :
@@ -110,49 +102,17 @@ Theorem C06_builder_deterministic :
 Proof. exact build_block_deterministic. Qed.
 Print Assumptions C06_builder_deterministic.
 
-(* 5. agreement, outside the open finding "zero-amount penalty": if no evidence
-      of the builder's pool reaches doPenalize with a zero total, the block built
-      from ANY candidate transactions and ANY evidence pool is accepted by a node
-      whose head is the block's parent, with the builder's state and receipts *)
-Theorem C06_builder_validator_holds_outside :
-  forall (St tx lg : Type) exec price resolve val_exists penalize max_expired view apply_rewards
-         v5 threshold coeff ratios freq period_end commit receipt_hash bloom,
-  forall sc sc' m m' st0 number coinbase cands pool b,
-    sched_valid sc -> sched_valid sc' -> memo_valid resolve m -> memo_valid resolve m' ->
-    build_block St tx lg exec price resolve val_exists penalize max_expired view apply_rewards
-                v5 threshold coeff ratios freq period_end commit receipt_hash bloom
-                sc m st0 number coinbase cands pool = Done b ->
-    has_zero_penalty St lg resolve val_exists penalize m (number - 1)%N max_expired
-      (mkEacc St lg (pre_slash_state St tx lg exec price st0 coinbase cands) [] [] [] []) pool = false ->
-    process_block St tx lg exec price resolve val_exists penalize max_expired view apply_rewards
-                  v5 threshold coeff ratios freq period_end commit receipt_hash bloom
-                  sc' m' (number - 1)%N st0 (b_header _ _ _ b)
-    = Accepted _ _ (b_state _ _ _ b) (b_receipts _ _ _ b).
-Proof. exact builder_validator_holds_outside. Qed.
-Print Assumptions C06_builder_validator_holds_outside.
+(* 5. agreement: the block built from ANY candidate transactions and ANY
+      evidence pool is accepted, with the builder's state and receipts, under any
+      admissible iteration orders and cache contents on either side *)
+Theorem C06_builder_validator : C06_agreement_full.
+Proof. exact builder_validator. Qed.
+Print Assumptions C06_builder_validator.
 
-(* 6. the faithful model of the unchanged code violates the full statement, in
-      both halves (witnesses: ProofsC.Witness; reproduced on the real code by
-      corpus/C06/w1 and w2, see /verif/fixes/C06_*.md) *)
-Lemma determinism_refuted : ~ C06_determinism_full.
-Proof.
-  intro H. destruct Witness.head_moved_block_rejected as (b & _ & Hne). apply Hne.
-  apply H; try apply id_sched_valid; intros e a E; discriminate.
-Qed.
-Lemma agreement_refuted : ~ C06_agreement_full.
-Proof.
-  intro H. destruct Witness.zero_penalty_block_rejected as (b & Hb & Hr).
-  assert (Hm : memo_valid Witness.resolve (fun _ => None)) by (intros e a E; discriminate).
-  pose proof (H Witness.St N unit Witness.exec Witness.price Witness.resolve Witness.val_exists Witness.penalize0 5%N
-                Witness.view Witness.apply_rewards true 9 5 (mkPR 3 3 4) 4%N Witness.period_end Witness.commit
-                Witness.rhash Witness.rhash id_sched id_sched (fun _ => None) (fun _ => None) false 5%N 9%N
-                [3; 12; 4]%N [Witness.ev; Witness.ev_future; Witness.ev] b
-                id_sched_valid id_sched_valid Hm Hm Hb) as Hacc.
-  change (5 - 1)%N with 4%N in Hacc. unfold Witness.process in Hr. rewrite Hr in Hacc. discriminate.
-Qed.
-Theorem C06_full_refuted : ~ C06_determinism_full /\ ~ C06_agreement_full.
-Proof. exact (conj determinism_refuted agreement_refuted). Qed.
-Print Assumptions C06_full_refuted.
+(* 6. the full statement *)
+Theorem C06_full_holds : C06_full.
+Proof. exact (conj process_block_deterministic builder_validator). Qed.
+Print Assumptions C06_full_holds.
 
 (* ---------------------------------------------------------------------- *)
 (* non-vacuity *)
@@ -178,15 +138,23 @@ Proof. split; [apply inventory_covered; vm_compute; tauto|]. split; vm_compute; 
 Print Assumptions C06_nonvacuous_bridge.
 
 (* a block with two included transactions (one candidate skipped), one
-   confirmed evidence, one pending evidence and one duplicate, built with one
-   schedule and an empty cache, processed with the reversed schedule and a
-   filled (valid) cache: accepted with the builder's state and receipts *)
+   confirmed evidence, one pending evidence, one duplicate and one same-hash
+   evidence, built with one schedule and an empty cache, processed with the
+   reversed schedule and a filled (valid) cache: accepted with the builder's
+   state and receipts; and the former zero-amount class: confirmed and accepted *)
 Example C06_nonvacuous_agreement :
   memo_valid Witness.resolve Witness.memo0 /\
-  exists b, Witness.build Witness.penalize1 = Done b /\ Witness.no_zero Witness.penalize1 = false /\
-            length (h_txs (b_header _ _ _ b)) = 2%nat /\ length (h_slash (b_header _ _ _ b)) = 1%nat /\
-            b_pool _ _ _ b = [Witness.ev_future] /\
-            Witness.process Witness.penalize1 rev_sched Witness.memo0 4%N (b_header _ _ _ b)
-            = Accepted _ _ (b_state _ _ _ b) (b_receipts _ _ _ b).
-Proof. split; [exact Witness.memo0_valid | exact Witness.positive_penalty_block_accepted]. Qed.
+  (exists b, Witness.build Witness.penalize1 = Done b /\
+            length (h_txs (b_header _ _ _ b)) = 2%nat /\ h_slash (b_header _ _ _ b) = [Witness.ev] /\
+            b_pool _ _ _ b = [Witness.ev_future] /\ b_state _ _ _ b = true /\
+            Witness.process Witness.penalize1 rev_sched Witness.memo0 (b_header _ _ _ b)
+            = Accepted _ _ (b_state _ _ _ b) (b_receipts _ _ _ b)) /\
+  (exists b, Witness.build Witness.penalize0 = Done b /\ h_slash (b_header _ _ _ b) = [Witness.ev] /\
+            b_state _ _ _ b = true /\
+            Witness.process Witness.penalize0 id_sched (fun _ => None) (b_header _ _ _ b)
+            = Accepted _ _ (b_state _ _ _ b) (b_receipts _ _ _ b)).
+Proof.
+  split; [exact Witness.memo0_valid|].
+  split; [exact Witness.positive_penalty_block_accepted | exact Witness.zero_penalty_block_accepted].
+Qed.
 Print Assumptions C06_nonvacuous_agreement.
